@@ -4,8 +4,11 @@ Decides the clause "no goal is registered without consulting the exclusion oracl
 shape clauses the oracle itself rests on: the inclusive (start, end) convention of
 scope_line_range at every use as a range bound / containment test, outermost-first scope
 lookup, all five exclusion sources feeding no_cover_lines under their own flags, and the
-priority of no-cover over only-cover.  The line arithmetic of AstInfo on arbitrary modules
-and the converse clause (every executable line outside excluded code is a goal) are not decided.
+priority of no-cover over only-cover; and, by interpreting ModuleAstInfo / AstInfo from source over a
+representative module (nested scopes to depth 3, try / except / else / finally, for-else, while, if / elif /
+else, match), that a marker excludes exactly its own line plus the block it heads and that scopes are found
+under their qualified names.  Arbitrary modules and the converse clause (every executable line outside
+excluded code is a goal) are not decided.
 """
 
 from __future__ import annotations
@@ -151,6 +154,9 @@ def check(ctx) -> None:
     ctx.rule("C08.sources", "ModuleAstInfo.from_path unions all exclusion sources into no_cover_lines, each inline pattern gated by its own flag; ignore_methods feed no_cover", floor=7)
     ctx.rule("C08.priority", "AstInfo._in_cover rejects a no-cover line before only-cover is consulted; should_be_covered quantifies universally over enclosing definitions", floor=3)
     ctx.rule("C08.arms", "should_cover_line has an exclusion arm for every compound statement kind it enumerates; should_cover_conditional_statement requires both the statement and its else lines", floor=8)
+
+    ctx.rule("C08.lines", "ABSINT: scope names and should_cover_line interpreted over a representative module: a marker excludes exactly its own line and the block it heads; scopes are named by their qualified name at every depth", floor=20)
+    _lines(ctx, repo)
 
     # ------------------------------------------------------------------ C08.guard
     fns = []
@@ -419,3 +425,246 @@ def _dict_order(fn, recv):
         if isinstance(n, ast.DictComp):
             return "last", "dict comprehension keyed by start line"
     return "unknown", f"mapping `{target}`"
+
+
+# ---------------------------------------------------------------------------------- line arithmetic over a representative module
+REPRESENTATIVE = """\
+class Outer:
+    class Inner:
+        def method(self, x):
+            if x:
+                return 1
+            return 0
+        def other(self):
+            return 2
+    def top(self):
+        def nested():
+            return 3
+        return nested
+
+def fn(a, b):
+    try:
+        r = a / b
+    except ZeroDivisionError:
+        r = 0
+    else:
+        r += 1
+    finally:
+        if a:
+            r -= 1
+    for i in range(a):
+        r += i
+    else:
+        r = -r
+    while b:
+        b -= 1
+    if a:
+        r = 1
+    elif b:
+        r = 2
+    else:
+        r = 3
+    match a:
+        case 1:
+            r = 4
+        case _:
+            r = 5
+    try:
+        r += 1
+    finally:
+        r += 2
+    if b:
+        r = 6
+    else:
+        if a:
+            r = 7
+    return r
+"""
+
+
+def _oracle_blocks(tree):
+    """header line -> lines of the block it heads (statement start to end), by the structure of the source only."""
+    heads = {}
+
+    def span(stmts):
+        return set(range(stmts[0].lineno, stmts[-1].end_lineno + 1)) if stmts else set()
+
+    def between(prev, nxt):
+        return set(range(prev[-1].end_lineno + 1, nxt[0].lineno)) if prev and nxt else set()
+
+    for n in ast.walk(tree):
+        if isinstance(n, (ast.If, ast.For, ast.While)):
+            heads.setdefault(n.lineno, set()).update(span(n.body))
+            # an elif is a nested If at the indentation of its parent; `else:` followed by a single `if` is a real else block
+            is_elif = isinstance(n, ast.If) and len(n.orelse) == 1 and isinstance(n.orelse[0], ast.If) and n.orelse[0].col_offset == n.col_offset
+            if n.orelse and not is_elif:
+                for l in between(n.body, n.orelse):
+                    heads.setdefault(l, set()).update(span(n.orelse))
+        elif isinstance(n, ast.Try):
+            heads.setdefault(n.lineno, set()).update(span(n.body))
+            for h in n.handlers:
+                heads.setdefault(h.lineno, set()).update(span(h.body))
+            last = n.handlers[-1].body if n.handlers else n.body
+            for l in between(last, n.orelse):
+                heads.setdefault(l, set()).update(span(n.orelse))
+            before_final = n.orelse or last
+            for l in between(before_final, n.finalbody):
+                heads.setdefault(l, set()).update(span(n.finalbody))
+        elif isinstance(n, ast.Match):
+            heads.setdefault(n.lineno, set()).update(set(range(n.lineno, n.end_lineno + 1)))
+            for c in n.cases:
+                heads.setdefault(c.pattern.lineno, set()).update(span(c.body))
+    return heads
+
+
+def _lines(ctx, repo) -> None:
+    import re as _re
+
+    from sa.engine import peval
+
+    tmod = repo.module(TR)
+    tree = ast.parse(REPRESENTATIVE)
+    cres = peval.repo_class_resolver(repo, only={"ModuleAstInfo", "AstInfo"})
+    scope_node = tuple(getattr(ast, n.attr) for n in ast.walk(tmod.assigns["SCOPE_CLASSES"]) if isinstance(n, ast.Attribute)) if "SCOPE_CLASSES" in tmod.assigns else None
+    if not scope_node:
+        raise AnalysisError("SCOPE_CLASSES is not a tuple of ast classes any more")
+
+    def interp():
+        return peval.Interp(resolver=peval.repo_resolver(repo), class_resolver=cres, native_types=(ast.AST,), max_steps=3000000,
+                            consts={"ast": ast, "_ast": ast, "TryStar": ast.TryStar, "ScopeNode": scope_node, "SCOPE_CLASSES": scope_node},
+                            externs={"cast": lambda _t, v: v})
+
+    # ---- scope names
+    gsn = repo.func(TR, "ModuleAstInfo._get_scope_names")
+    ctx.analysed(gsn)
+    want = {}
+
+    def walk(node, prefix):
+        for ch in ast.iter_child_nodes(node):
+            if isinstance(ch, (ast.ClassDef, ast.FunctionDef, ast.AsyncFunctionDef)):
+                q = f"{prefix}.{ch.name}" if prefix else ch.name
+                want[q] = ch.lineno
+                walk(ch, q)
+            elif not isinstance(ch, scope_node):
+                walk(ch, prefix)
+
+    walk(tree, "")
+    try:
+        it = interp()
+        mai = it.instantiate("ModuleAstInfo", cres("ModuleAstInfo", tmod), [], {"module_ast": tree, "only_cover_lines": frozenset(), "no_cover_lines": frozenset()}, init=False)
+        got = dict(mai.methods["_get_scope_names"](tree))
+        ctx.check("C08.lines", gsn, got == want, f"[scope names] _get_scope_names yields {sorted(set(got.items()) - set(want.items()))} instead of {sorted(set(want.items()) - set(got.items()))}: a no_cover / only_cover entry that names such a scope is not resolved (only a warning is logged) and the scope keeps / loses its goals", what=f"[scope names] {len(want)} scopes under their qualified names", stmt="[scope names]")
+    except peval.Undecided as exc:
+        ctx.undecide("C08.lines", gsn, f"[scope names]: {exc}")
+    except peval.Raises as exc:
+        ctx.fail("C08.lines", gsn, f"[scope names]: raises {exc.name} ({exc.detail[:60]})", stmt="[scope names]")
+
+    # ---- the scope of a code object is found by the first line of the code object (its first decorator, if any)
+    gs = repo.func(TR, "ModuleAstInfo.get_scope")
+    ctx.analysed(gs)
+    dsrc = "import functools\n@functools.lru_cache\ndef cached(x):\n    return x\nclass K:\n    @staticmethod\n    @functools.cache\n    def m(x):\n        return x\n    def plain(self):\n        return 1\n@functools.total_ordering\nclass D:\n    pass\n"
+    dtree = ast.parse(dsrc)
+    code = compile(dsrc, "<representative>", "exec")
+    first_lines = {}
+
+    def collect(c, prefix=""):
+        for k in c.co_consts:
+            if hasattr(k, "co_code"):
+                first_lines[k.co_qualname] = k.co_firstlineno
+                collect(k)
+
+    collect(code)
+    for qual, line in sorted(first_lines.items()):
+        tag = f"[scope of code object {qual}, first line {line}]"
+        try:
+            it = interp()
+            mai = it.instantiate("ModuleAstInfo", cres("ModuleAstInfo", tmod), [], {"module_ast": dtree, "only_cover_lines": frozenset(), "no_cover_lines": frozenset()}, init=False)
+            info = mai.methods["get_scope"](line)
+            name = getattr(info.fields["ast"], "name", None) if info is not None else None
+        except peval.Undecided as exc:
+            ctx.undecide("C08.lines", gs, f"{tag}: {exc}")
+            continue
+        except peval.Raises as exc:
+            ctx.fail("C08.lines", gs, f"{tag}: get_scope raises {exc.name}", stmt=tag)
+            continue
+        ctx.check("C08.lines", gs, name == qual.split(".")[-1], f"{tag}: get_scope({line}) finds {'no scope' if name is None else name}: without a scope the exclusion oracle is bypassed, so no_cover entries and inline markers do not apply to this (decorated) definition", what=f"{tag}: found", stmt=tag)
+
+    # ---- a conditional jump on an excluded line is neither registered nor kept in the covered CDG
+    _jump_line(ctx, repo)
+
+    # ---- a marker excludes its own line and the block it heads, nothing else
+    scl = repo.func(TR, "AstInfo.should_cover_line")
+    ctx.analysed(scl)
+    heads = _oracle_blocks(tree)
+    fn_node = next(n for n in tree.body if isinstance(n, ast.FunctionDef) and n.name == "fn")
+    fn_lines = list(range(fn_node.lineno + 1, fn_node.end_lineno + 1))
+    stmt_lines = sorted({n.lineno for n in ast.walk(fn_node) if isinstance(n, ast.stmt)} - {fn_node.lineno})
+    markers = sorted(set(heads) & set(fn_lines)) + [l for l in stmt_lines if l not in heads][:6]
+    for m in markers:
+        excluded = {m} | heads.get(m, set())
+        tag = f"[marker on line {m}: `{REPRESENTATIVE.splitlines()[m - 1].strip()}`]"
+        try:
+            it = interp()
+            mai = it.instantiate("ModuleAstInfo", cres("ModuleAstInfo", tmod), [], {"module_ast": tree, "only_cover_lines": frozenset(), "no_cover_lines": frozenset({m})}, init=False)
+            info = it.instantiate("AstInfo", cres("AstInfo", tmod), [], {"ast": fn_node, "module": mai}, init=False)
+            got_excl = {l for l in stmt_lines if not info.methods["should_cover_line"](l)}
+        except peval.Undecided as exc:
+            ctx.undecide("C08.lines", scl, f"{tag}: {exc}")
+            continue
+        except peval.Raises as exc:
+            ctx.fail("C08.lines", scl, f"{tag}: should_cover_line raises {exc.name} ({exc.detail[:60]})", stmt=tag)
+            continue
+        want_excl = excluded & set(stmt_lines)
+        ctx.check("C08.lines", scl, got_excl == want_excl, f"{tag}: lines excluded {sorted(got_excl)}, the marker's own line and block are {sorted(want_excl)}: too many -> code outside the excluded block loses its goals {sorted(got_excl - want_excl)}; too few -> excluded code keeps goals {sorted(want_excl - got_excl)}", what=f"{tag}: excludes {sorted(want_excl)}", stmt=tag)
+
+
+def _jump_line(ctx, repo) -> None:
+    """Jumps that belong to no if / for / while / match statement (conditional expressions, handlers, asserts): the oracle for
+    conditional statements says nothing about them, so their own line decides."""
+    from sa.checks import _instr as I
+    from sa.checks import c07
+    from sa.engine import peval
+
+    nx = c07._nx()
+    cfm = repo.module(c07.CF)
+    key = repo.fold(cfm, cfm.assigns["EDGE_DATA_BRANCH_VALUE"])
+    tools = c07._Tools(ctx, repo, nx, key)
+    L1, LJ = 10, 11
+    for first_line, what in ((L1, "first instruction on a covered line (e.g. RESUME of the def line)"), (None, "line-less first instruction (e.g. PUSH_EXC_INFO of a handler block)")):
+        instrs = [c07._instr("LOAD_FAST", first_line), c07._instr("POP_JUMP_IF_FALSE", LJ)]
+        info = c07._ast_info({L1: True, LJ: False}, {LJ: True})
+        # covered CDG
+        tag = f"[jump on an excluded line; {what}]"
+        try:
+            node = c07._block(2, instrs)
+            entry = peval.Obj("ENTRY", classes=["ArtificialNode"])
+            other = c07._block(1, [c07._instr("POP_JUMP_IF_TRUE", 5)])
+            succ = c07._block(3, [c07._instr("RETURN_VALUE", 12)])
+            g = nx.DiGraph()
+            g.add_edge(entry, other)
+            g.add_edge(other, node, **{key: True})
+            g.add_edge(node, succ, **{key: True})
+            tools.covered_cdg(g, info)
+            ctx.check("C08.lines", tools.ccd, node not in g, f"{tag}: the covered CDG keeps the block: the predicate on the excluded line stays a node other goals depend on", what=f"{tag}: removed from the covered CDG", stmt=f"{tag} cdg")
+        except (peval.Undecided, peval.Raises) as exc:
+            ctx.undecide("C08.lines", tools.ccd, f"{tag}: {exc}")
+        for v in I.VERSIONS:
+            vn = next((f for f in I.effective_functions(repo, v, "BranchCoverageInstrumentation") if f.name == "visit_node"), None)
+            if vn is None:
+                raise AnalysisError(f"{v}: BranchCoverageInstrumentation.visit_node vanished")
+            reached = []
+            selfobj = peval.Obj("adapter")
+            for nm in ("visit_for_loop", "visit_compare_based_conditional_jump", "visit_exception_based_conditional_jump", "visit_bool_based_conditional_jump", "visit_none_based_conditional_jump", "visit_subscr_access"):
+                selfobj.methods[nm] = (lambda n: (lambda *a, **k: reached.append(n)))(nm)
+            selfobj.fields["NONE_BASED_JUMPS_MAPPING"] = {}
+            node2 = c07._block(2, instrs)
+            node2.fields["instrumentation_original_instructions"] = list(enumerate(instrs))
+            node2.methods["find_instruction_by_original_index"] = lambda i: (i % len(instrs), instrs[i])
+            it = tools.interp()
+            it.consts.update({"JUMP_OP_POS": -1, "COMPARE_OP_POS": -2, "BINARY_SUBSCR_NAMES": ("BINARY_SUBSCR",), "COMPARE_NAMES": ("COMPARE_OP", "IS_OP", "CONTAINS_OP"), "python3_10.COMPARE_NAMES": ("COMPARE_OP", "IS_OP", "CONTAINS_OP")})
+            try:
+                it.run_function(vn, [selfobj, info, peval.Obj("cfg"), 1, node2], {}, vn._module)
+            except (peval.Undecided, peval.Raises) as exc:
+                ctx.undecide("C08.lines", vn, f"[{v}] {tag}: {exc}")
+                continue
+            ctx.check("C08.lines", vn, not reached, f"[{v}] {tag}: visit_node registers the predicate ({reached}): a conditional expression / exception handler / assert on a line marked `# pragma: no cover` remains a branch goal", what=f"[{v}] {tag}: not registered", stmt=f"[{v}] {tag}")
